@@ -98,8 +98,8 @@ def alldeps(v):
         return v[2]
     if k == "top":
         return v[1]
-    if k in ("agg", "arr"):
-        d = E
+    if k in ("agg", "arr", "iter"):
+        d = v[2] if k == "iter" else E
         for x in v[1]:
             d = d | alldeps(x)
         return d
@@ -128,6 +128,9 @@ def add_deps(v, d):
         return ("agg", tuple(add_deps(x, d) for x in v[1]), v[2])
     if k == "arr":
         return ("arr", tuple(add_deps(x, d) for x in v[1]))
+    if k == "iter":
+        # the items of an iterator model are references or values; what it yields under a dependent condition is dependent
+        return ("iter", tuple(add_deps(x, d) for x in v[1]), v[2] | d)
     if k == "enum":
         return ("enum", v[1], v[2] | d, tuple((vi, tuple(add_deps(x, d) for x in fs)) for vi, fs in v[3]))
     return v
@@ -143,6 +146,13 @@ def join(a, b):
     ka, kb = a[0], b[0]
     if ka == "top" or kb == "top":
         return ("top", alldeps(a) | alldeps(b))
+    if ka == "iter" or kb == "iter":
+        if ka == kb and len(a[1]) == len(b[1]):
+            try:
+                return ("iter", tuple(join(x, y) for x, y in zip(a[1], b[1])), a[2] | b[2])
+            except Imprecise:
+                pass
+        raise Imprecise("join of two different iterator states")
     if ka != kb:
         if {ka, kb} <= {"s", "agg", "arr", "enum", "zst"}:
             return ("top", alldeps(a) | alldeps(b))
@@ -577,6 +587,8 @@ class Interp:
     def _scalar(v):
         if v[0] == "s":
             return v
+        if v[0] == "iter":
+            return S(None, alldeps(v), None)
         if v[0] == "zst":
             return S(0, E, None)
         return S(None, alldeps(v), None)
@@ -790,7 +802,14 @@ class Interp:
                     return ("enum", rv["vi"], E, ((rv["vi"], ops),))
                 return ("agg", ops, rv["adt"])
             if k == "closure":
-                return ("agg", ops, ("closure", rv.get("def")))
+                cinst = None
+                if fr.get("inst") is not None:
+                    for ent in self.F.instances[fr["inst"]].get("r", []):
+                        ci = ent[1] if isinstance(ent, (list, tuple)) else ent
+                        if isinstance(ci, int) and self.F.instances[ci]["d"] == rv.get("def"):
+                            cinst = ci
+                            break
+                return ("agg", ops, ("closure", rv.get("def"), cinst))
             if k == "rawptr":
                 raise Imprecise("raw pointer aggregate")
             return TOP(frozenset().union(*[alldeps(o) for o in ops]) if ops else E)
@@ -1015,8 +1034,8 @@ class Interp:
                 return E
             seen.add(v[1])
             return self.deep_deps(self.read_target(v[1]), seen, depth + 1)
-        if v[0] in ("agg", "arr"):
-            d = E
+        if v[0] in ("agg", "arr", "iter"):
+            d = v[2] if v[0] == "iter" else E
             for x in v[1]:
                 d = d | self.deep_deps(x, seen, depth)
             return d
@@ -1031,13 +1050,120 @@ class Interp:
     def refs_in(self, v, out):
         if v[0] == "ref" and v[1] is not None:
             out.append(v[1])
-        elif v[0] in ("agg", "arr"):
+        elif v[0] in ("agg", "arr", "iter"):
             for x in v[1]:
                 self.refs_in(x, out)
         elif v[0] == "enum":
             for _vi, fs in v[3]:
                 for x in fs:
                     self.refs_in(x, out)
+
+    # ---------------------------------------------------------------- iterators and closures (std adaptors without MIR)
+    def call_closure(self, fr, clos, args, pc):
+        """run the MIR of a closure value on `args`; None when it is not a closure this analysis can enter"""
+        if not (clos[0] == "agg" and isinstance(clos[2], tuple) and clos[2] and clos[2][0] == "closure" and len(clos[2]) > 2 and clos[2][2] is not None):
+            return None
+        inst = clos[2][2]
+        body = self.F.bodies.get(self.F.instances[inst]["d"])
+        if body is None or "blocks" not in body:
+            return None
+        selfty = body["locals"][1] if len(body["locals"]) > 1 else ""
+        if selfty.startswith("&"):
+            key = "closure%d" % len(self.mem[0])
+            self.mem[0][key] = clos
+            selfarg = ("ref", (0, key, ()))
+        else:
+            selfarg = clos
+        return self.exec_fn(inst, [selfarg] + list(args), pc, fr)
+
+    def _as_iter(self, v):
+        """an iterator model for a value: itself, or the elements of the array / slice a reference points to"""
+        if v[0] == "iter":
+            return v
+        if v[0] == "ref" and v[1] is not None:
+            t_ = self.read_target(v[1])
+            if t_[0] == "arr":
+                return ("iter", tuple(("ref", (v[1][0], v[1][1], v[1][2] + (("i", j, E),))) for j in range(len(t_[1]))), E)
+            if t_[0] == "iter":
+                return t_
+        if v[0] == "arr":
+            return ("iter", tuple(v[1]), E)
+        if v[0] == "agg" and v[2] == "Range" and len(v[1]) == 2 and v[1][0][0] == "s" and v[1][1][0] == "s" \
+                and v[1][0][1] is not None and v[1][1][1] is not None and v[1][1][1] - v[1][0][1] <= 4096:
+            ty = v[1][0][3]
+            return ("iter", tuple(S(k_, v[1][0][2] | v[1][1][2], ty) for k_ in range(v[1][0][1], max(v[1][0][1], v[1][1][1]))), E)
+        return None
+
+    def _iter_model(self, fr, path, name, t, args, pc):
+        """exact dependence models of the slice / range iterators and the order-only adaptors; None = not modelled here"""
+        if path in ("core::slice::<impl [T]>::iter", "core::slice::<impl [T]>::iter_mut") or \
+                (name == "into_iter" and ("IntoIterator for &'a [T]" in path or "IntoIterator for &'a mut [T]" in path or "IntoIterator for [T; N]" in path
+                                          or "IntoIterator for &'a [T; N]" in path or "IntoIterator for &'a mut [T; N]" in path or path == "<I as core::iter::IntoIterator>::into_iter")):
+            it = self._as_iter(args[0]) if args else None
+            return it
+        if path == "core::cmp::Ordering::then_with" and len(args) == 2:
+            before = self.snapshot()
+            r = self.call_closure(fr, args[1], [], pc)
+            if r is None:
+                return None
+            ret2, _pc2 = r
+            self.mem = join_mem(before, self.mem)          # the closure runs only when the first ordering is Equal
+            return ("enum", None, alldeps(args[0]) | alldeps(ret2), ())
+        if not path.startswith("core::iter::Iterator::") and not (name == "next" and " as core::iter::Iterator>::next" in path or "impl core::iter::Iterator for" in path and name == "next"):
+            return None
+        if name == "next" and len(args) == 1 and args[0][0] == "ref" and args[0][1] is not None:
+            cur = self.read_target(args[0][1])
+            it = cur if cur[0] == "iter" else (self._as_iter(cur) if cur[0] == "agg" and cur[2] == "Range" else None)
+            if it is None:
+                return None
+            if not it[1]:
+                return ("enum", 0, it[2], ((0, ()),))
+            self.write_target(args[0][1], ("iter", it[1][1:], it[2]))
+            return ("enum", 1, it[2], ((1, (add_deps(it[1][0], it[2]),)),))
+        if not args:
+            return None
+        it = self._as_iter(args[0])
+        if it is None:
+            return None
+        if name == "rev" and len(args) == 1:
+            return ("iter", it[1][::-1], it[2])
+        if name in ("skip", "take") and len(args) == 2:
+            n_ = self._scalar(args[1])
+            if n_[1] is None:
+                return None
+            return ("iter", it[1][n_[1]:] if name == "skip" else it[1][:n_[1]], it[2] | n_[2])
+        if name == "enumerate" and len(args) == 1:
+            return ("iter", tuple(("agg", (S(j, E, "usize"), x), None) for j, x in enumerate(it[1])), it[2])
+        if name == "zip" and len(args) == 2:
+            other = self._as_iter(args[1])
+            if other is None:
+                return None
+            m_ = min(len(it[1]), len(other[1]))
+            return ("iter", tuple(("agg", (x, y), None) for x, y in zip(it[1][:m_], other[1][:m_])), it[2] | other[2])
+        if name in ("copied", "cloned") and len(args) == 1:
+            out_ = []
+            for x in it[1]:
+                out_.append(self.read_target(x[1]) if x[0] == "ref" and x[1] is not None else x)
+            return ("iter", tuple(out_), it[2])
+        if name in ("cmp", "partial_cmp", "eq", "ne", "lt", "le", "gt", "ge") and len(args) == 2:
+            other = self._as_iter(args[1])
+            if other is None:
+                return None
+            d_ = self.deep_deps(it) | self.deep_deps(other)
+            if name == "cmp":
+                return ("enum", None, d_, ())
+            if name == "partial_cmp":
+                return ("enum", None, d_, ((0, ()), (1, (("enum", None, d_, ()),))))
+            return S(None, d_, "bool")
+        if name == "fold" and len(args) == 3:
+            acc = args[1]
+            for x in it[1]:
+                r = self.call_closure(fr, args[2], [acc, add_deps(x, it[2])], pc)
+                if r is None:
+                    return None
+                acc, pc = r
+            return acc
+        return None
 
     def _prim_lanes(self, name, ty, args, sc):
         """byte-exact dependence of the primitive methods that move or combine bytes (None: no such model)"""
@@ -1253,6 +1379,13 @@ class Interp:
                 return ("arr", tuple(S(None, deps, "u8") for _ in range(INT_BITS.get(ty, 64) // 8))), pc
             rty = "bool" if name.startswith("is_") else ("u32" if name in ("trailing_zeros", "leading_zeros", "count_ones", "count_zeros", "ilog2", "leading_ones", "trailing_ones") else ty)
             return S(r, deps, rty), pc
+        # ---- iterators / closures
+        try:
+            im = self._iter_model(fr, path, name, t, args, pc)
+        except Diverge:
+            raise
+        if im is not None:
+            return im, pc
         # ---- conservative default
         body = fr["body"]
         for pl in [a_[1] for a_ in t["args"] if a_[0] in ("c", "m")] + [t["dest"]]:
